@@ -393,7 +393,9 @@ def run_layout(acc, shapes, seed):
 def _cotangents(r, seed):
     basis = [np.eye(r)[j] for j in range(r)]
     gen = np.array([(0.7 + 0.45 * j + 0.1 * (seed % 8)) * (-1.0 if j % 2 else 1.0) for j in range(r)])
-    return basis + [gen]
+    # the all-zero cotangent (a loss that does not depend on the differentiated tensors at all): linearity demands exact zeros, also
+    # when a chunk holds nothing else
+    return basis + [np.zeros(r)] + [gen]
 
 
 def _split(t, outs, vec, lead=()):
